@@ -44,7 +44,7 @@ def state_case(rnd, removal=None, max_calls=10, family=None, malformed=0.0, isol
         hist = [tuple(shift_op(o, d)) for o in hist]
         classes.append('negative_instants')
     return dict(directed=directed, removal=removal, hist=pre + hist, classes=classes,
-                family=family or rnd.choice(['int', 'int', 'str', 'tuple']), functional=rnd.choice([0, 0, 0, 1, 1, 2]))
+                family=family or rnd.choice(['int', 'int', 'str', 'tuple', 'sym']), functional=rnd.choice([0, 0, 0, 1, 1, 2]))
 
 
 def known_nodes(hist, results=None):
